@@ -263,13 +263,13 @@ theorem stageTracer_keys (cd : ClassDesc) (n : Nat) (h : Heap) :
     rfl
   · simp [ht]
 
-theorem stageModel_keys (fix : Bool) (cd : ClassDesc) (ve vc : Val) (h : Heap) :
-    (stageModel fix cd ve vc h).2.map Prod.fst =
+theorem stageModel_keys (cd : ClassDesc) (ve vc : Val) (h : Heap) :
+    (stageModel cd ve vc h).2.map Prod.fst =
       if cd.base = .container then [] else ["endogenous", "check"] ++ (if cd.base = .model then ["engine"] else []) := by
   unfold stageModel
   by_cases hc : cd.base = .container
   · simp [hc]
-  · by_cases hf : fix = true <;> by_cases hm : cd.base = .model <;> simp [hc, hf, hm]
+  · by_cases hm : cd.base = .model <;> simp [hc, hm]
 
 theorem stageAlias_keys (cd : ClassDesc) (h : Heap) :
     (stageAlias cd h).2.map Prod.fst = if cd.alias then ["aliases", "preferred_names"] else [] := by
@@ -281,8 +281,8 @@ theorem stageLinker_keys (cd : ClassDesc) (sub : Val) :
   unfold stageLinker
   by_cases hl : cd.base = .linker <;> simp [hl]
 
-theorem construct_keys (fix : Bool) (cd : ClassDesc) (h : Heap) (span sub : Val) :
-    (construct fix cd h span sub).2.map Prod.fst = ctorKeys cd (modelNames h cd) := by
+theorem construct_keys (cd : ClassDesc) (h : Heap) (span sub : Val) :
+    (construct cd h span sub).2.map Prod.fst = ctorKeys cd (modelNames h cd) := by
   unfold construct ctorKeys
   simp only [thread_snd, List.map_append, stageTracer_keys, stageModel_keys, stageInterface_keys, stageAlias_keys,
     stageLinker_keys, List.nil_append]
@@ -294,8 +294,8 @@ theorem modelNames_ext {h0 h : Heap} (wf0 : WF h0) (e : Ext h0 h) {cd : ClassDes
   rw [getObj_classAttr_ext wf0 e ok]
 
 /-- In a linker's fresh `__dict__` the `submodels` entry is the constructor argument. -/
-theorem construct_lookup_submodels (fix : Bool) (cd : ClassDesc) (h : Heap) (span sub : Val)
-    (hl : cd.base = .linker) : (construct fix cd h span sub).2.lookup "submodels" = some sub := by
+theorem construct_lookup_submodels (cd : ClassDesc) (h : Heap) (span sub : Val)
+    (hl : cd.base = .linker) : (construct cd h span sub).2.lookup "submodels" = some sub := by
   unfold construct
   simp only [thread_snd]
   have hA : (stageAlias cd h).2.lookup "submodels" = none := by
